@@ -314,7 +314,7 @@ class Execution:
 
         def handle(mid, tname, kind, pl):  # noqa: C901, PLR0912
             nonlocal msg_n, api_in_inv, outcome, dseq, inflight_api, active_fns, idle_api
-            if kind in ("clock", "targeted_attached"):
+            if kind in ("clock", "targeted_attached", "contract", "contracts_attached"):
                 self.rec(kind, **pl)
                 return
             n = msg_n
@@ -594,6 +594,7 @@ class Execution:
                      dex_alive=None if oc is None else oc.get("dex_alive"),
                      threads=None if oc is None else oc.get("threads"),
                      perturb_hits=None if oc is None else oc.get("perturb_hits"),
+                     contract_evals=None if oc is None else oc.get("contract_evals"),
                      exec_result=self.backend.exec_result, msgs=res["msgs"],
                      armed=[(t, oid) for t, oid in self.backend.armed_timers()],
                      awaiting=self.backend.awaiting_external(),
